@@ -252,39 +252,59 @@ func pcPhi(fs []pcFactor) *big.Int {
 	return phi
 }
 
-// fourth root of r modulo a square-free odd N with the given prime factors, if one exists (CRT of per-prime roots)
+// fourth root of r modulo p^k (p an odd prime, r a unit): a root modulo p by two square roots, lifted by Newton steps
+func pcFourthRootPP(r, p *big.Int, k int) *big.Int {
+	rp := new(big.Int).Mod(r, p)
+	if rp.Sign() == 0 {
+		return nil
+	}
+	s1 := new(big.Int).ModSqrt(rp, p)
+	if s1 == nil {
+		return nil
+	}
+	var root *big.Int
+	for _, s := range []*big.Int{s1, new(big.Int).Sub(p, s1)} {
+		if rr := new(big.Int).ModSqrt(s, p); rr != nil {
+			root = rr
+			break
+		}
+	}
+	if root == nil {
+		return nil
+	}
+	m := new(big.Int).Set(p)
+	for j := 1; j < k; j++ {
+		m.Mul(m, p)
+		// x <- x - (x^4 - r) / (4 x^3) modulo p^(j+1)
+		x3 := new(big.Int).Exp(root, pcB(3), m)
+		den := new(big.Int).ModInverse(new(big.Int).Mod(new(big.Int).Mul(pcB(4), x3), m), m)
+		if den == nil {
+			return nil
+		}
+		num := new(big.Int).Sub(new(big.Int).Exp(root, pcB(4), m), r)
+		root.Sub(root, num.Mul(num, den)).Mod(root, m)
+	}
+	return root
+}
+
+// fourth root of r modulo an odd N with the given prime-power factors, if one exists (CRT of the per-factor roots)
 func pcFourthRoot(r, N *big.Int, fs []pcFactor) *big.Int {
 	x, m := big.NewInt(0), big.NewInt(1)
 	for _, f := range fs {
-		if f.K != 1 || f.P.Bit(0) == 0 {
+		if f.P.Bit(0) == 0 {
 			return nil
 		}
-		rp := new(big.Int).Mod(r, f.P)
-		var root *big.Int
-		if rp.Sign() == 0 {
-			root = big.NewInt(0)
-		} else {
-			// try both square roots of rp, then a square root of each
-			s1 := new(big.Int).ModSqrt(rp, f.P)
-			if s1 == nil {
-				return nil
-			}
-			for _, s := range []*big.Int{s1, new(big.Int).Sub(f.P, s1)} {
-				if rr := new(big.Int).ModSqrt(s, f.P); rr != nil {
-					root = rr
-					break
-				}
-			}
-			if root == nil {
-				return nil
-			}
+		pk := new(big.Int).Exp(f.P, pcB(int64(f.K)), nil)
+		root := pcFourthRootPP(new(big.Int).Mod(r, pk), f.P, f.K)
+		if root == nil {
+			return nil
 		}
-		// CRT: x = x + m * ((root - x) / m mod p)
-		inv := new(big.Int).ModInverse(new(big.Int).Mod(m, f.P), f.P)
+		// CRT: x = x + m * ((root - x) / m mod p^k)
+		inv := new(big.Int).ModInverse(new(big.Int).Mod(m, pk), pk)
 		d := new(big.Int).Sub(root, x)
-		d.Mul(d, inv).Mod(d, f.P)
+		d.Mul(d, inv).Mod(d, pk)
 		x.Add(x, d.Mul(d, m))
-		m.Mul(m, f.P)
+		m.Mul(m, pk)
 	}
 	return x.Mod(x, N)
 }
